@@ -155,7 +155,7 @@ PROPS["C12"] = {
 PROPS["C19"] = {
     "explanation": "enumerable_thread_specific / combinable: 2-3 threads call local() for the first time (and again) while 0, 2 or 4 other threads are already "
                    "registered, so the window crosses the table doublings; oracle: distinct stable addresses, one initialiser call per thread, iteration/combine "
-                   "visit each element once. collaborative_call_once legs: see the call_once harness.",
+                   "visit each element once. collaborative_call_once: 2-3 external threads (each with its implicit arena) arrive at one flag on the real scheduler; the function throws on a leg-chosen subset of attempts and optionally runs a task_group so that waiters moonlight; oracle: one successful completion, callers return after it and (happens-before clocks) see its effects, each exception reaches exactly one caller, the flag retries / stays done.",
     "legs": [
         leg("ets-fresh3", "c19_ets", (2, 3), {"n": 3}, what="three first accesses on an empty container (third triggers growth)"),
         leg("ets-pre2", "c19_ets", (2, 3), {"pre": 2, "n": 2}, what="two registered, two new (growth at the third)"),
@@ -163,5 +163,43 @@ PROPS["C19"] = {
         leg("ets-pre2-n3", "c19_ets", (2, 2), {"pre": 2, "n": 3}, what="two registered, three new"),
         leg("ets-key", "c19_ets", (2, 3), {"kind": "ets_key", "pre": 2, "n": 2}, what="ets_key_per_instance (native TLS key) variant"),
         leg("combinable", "c19_ets", (2, 2), {"kind": "comb", "pre": 2, "n": 3}, what="combinable: combine / combine_each"),
+        leg("once-2", "c19_once", (2, 3), {"callers": 2, "mask": 0}, flags=("-fp", "-hb"), what="two callers, no exception", weight=2.0),
+        leg("once-2-throw1", "c19_once", (2, 3), {"callers": 2, "mask": 1}, flags=("-fp", "-hb"), what="first attempt throws, second caller retries", weight=2.0),
+        leg("once-2-throw-all", "c19_once", (2, 2), {"callers": 2, "mask": 3}, flags=("-fp", "-hb"), what="both attempts throw; flag stays reusable", weight=2.0),
+        leg("once-3-throw1", "c19_once", (1, 2), {"callers": 3, "mask": 1}, flags=("-fp", "-hb"), what="three callers, first attempt throws", weight=3.0),
+        leg("once-3-throw2", "c19_once", (1, 2), {"callers": 3, "mask": 2}, flags=("-fp", "-hb"), what="three callers, second attempt throws", weight=3.0),
+        leg("once-inner", "c19_once", (1, 2), {"callers": 2, "mask": 0, "inner": 1}, flags=("-fp", "-hb"), what="the function runs a task_group: waiting callers moonlight in the winner's arena", weight=3.0),
+        leg("once-inner-throw", "c19_once", (1, 2), {"callers": 2, "mask": 1, "inner": 1}, flags=("-fp", "-hb"), what="moonlighting + exception", weight=3.0),
     ],
+}
+
+# ------------------------------------------------------------------------------------------------ C01
+def _c01():
+    L = [
+        leg("deque-basic", "c01_deque", (3, 4), {"owner": "SSGSGG", "thieves": 1, "steals": 2}, what="owner spawn/pop vs one thief"),
+        leg("deque-tie", "c01_deque", (3, 4), {"owner": "SG", "thieves": 2, "steals": 1}, what="one task: owner and two thieves tie on it"),
+        leg("deque-2thieves", "c01_deque", (2, 3), {"owner": "SSGG", "thieves": 2, "steals": 2}, what="two thieves contend for the pool lock"),
+        leg("deque-compact", "c01_deque", (3, 4), {"owner": "SSSSSSG", "prefill": 60, "presteal": 50, "thieves": 1, "steals": 2}, what="spawn compacts the pool in place while a thief is active"),
+        leg("deque-grow", "c01_deque", (3, 4), {"owner": "SSG", "prefill": 63, "presteal": 1, "thieves": 1, "steals": 2}, what="spawn grows (relocates) the pool while a thief is active"),
+        leg("deque-empty", "c01_deque", (3, 4), {"owner": "GSG", "prefill": 1, "thieves": 1, "steals": 2}, what="pop of the last task vs steal, then respawn"),
+    ]
+    one_worker = [("tg", "task_group run/run/wait"), ("nested", "a body runs a further body into the group during the wait"), ("tree", "three-level chain of run()s"),
+                  ("run_and_wait", "run_and_wait whose body runs more work"), ("handle", "task_handle / defer"), ("two_groups", "nested groups"),
+                  ("pfor", "parallel_for over 4 elements, simple_partitioner (wait tree of fold_tree)"), ("pfor_auto", "parallel_for(0,5) auto_partitioner"),
+                  ("pfor_aff", "affinity_partitioner second run: tasks mailed through proxies"), ("enqueue", "enqueue + task_handle enqueue + execute{wait}"),
+                  ("isolate", "isolated inner group while outer tasks are pending"), ("cancel", "cancelled group: each unit executed at most once, group reusable")]
+    for k, what in one_worker:
+        L.append(leg("rt-" + k, "c01_rt", (2, 3), {"kind": k}, flags=("-fp", "-hb"), what=what))
+    for k in ("tg", "pfor_aff", "enqueue"):
+        L.append(leg("rt-%s-asleep" % k, "c01_rt", (2, 3), {"kind": k, "asleep": 1}, flags=("-fp", "-hb"), what="same with the worker asleep when the window opens"))
+    L.append(leg("rt-tg-P3", "c01_rt", (1, 2), {"kind": "nested", "P": 3}, flags=("-fp", "-hb"), what="two workers", weight=2.0))
+    L.append(leg("rt-ext_run", "c01_rt", (1, 2), {"kind": "ext_run"}, flags=("-fp", "-hb"), what="two external threads run() into one group while it is waited for (reference vertex 0<->1)", weight=3.0))
+    L.append(leg("rt-oversub", "c01_rt", (1, 2), {"kind": "oversub"}, flags=("-fp", "-hb"), what="three threads, two slots: delegated execute", weight=3.0))
+    return L
+PROPS["C01"] = {
+    "explanation": "(a) white-box: the owner of a real arena_slot spawns/pops while 1-2 thieves steal, incl. pool compaction and growth; every task obtained exactly once. "
+                   "(b-d) public API on the real scheduler with one or two real worker threads: task_group wait trees, run_and_wait, task_handle, nested groups, parallel_for "
+                   "(simple/auto/affinity partitioner: fold_tree, mailboxes, proxies), enqueue, isolate, cancelled groups, oversubscribed arenas. Oracle: per-unit execution "
+                   "ledger checked when the wait returns, happens-before clocks on the units' writes, deadlock detection.",
+    "legs": _c01(),
 }
